@@ -54,8 +54,8 @@ PROPS = {
     "C15": dict(
         level="exploration",
         technique="bounded-exhaustive enumeration of reader/writer response scripts through the real default methods of tiny_std::io::{Read,Write} (no sampling); reference = plain concatenation",
-        steps=[_s("h-io", "c15")],
-        assumptions=["print!/println!/eprint! path (unix/print.rs) needs the syscall seam S2 (separate step when built)",
+        steps=[_s("h-io", "c15"), _s("h-misc", "print")],
+        assumptions=["print!/println!/eprint!/dbg! path (unix/print.rs) checked through the syscall seam with scripted write answers (step print)",
                      "writer EINTR: retry or returning EINTR both accepted; buffer contents after an I/O error are not constrained (a String must stay valid UTF-8, and unchanged when the delivered bytes are not UTF-8)"],
     ),
     "C19": dict(
@@ -63,7 +63,8 @@ PROPS = {
         technique="bounded-exhaustive Cartesian boundary grid (closed once under exact t+-d) through every public arithmetic/comparison op of Instant/SystemTime/MonotonicInstant against exact i128 nanosecond arithmetic, in two build profiles; clock/sleep sampled",
         steps=[_s("h-time", "arith"),
                _s("h-time", "arith", profile="nochk", name="arith-nochk"),
-               _s("h-time", "clock")],
+               _s("h-time", "clock"),
+               _s("h-misc", "sleep")],
         assumptions=["operations are piecewise-linear in (sec,nsec) with comparisons against 0, 10^9 and the i64/u64 limits; the grid holds the +-2 (thorough +-3) neighbourhood of each",
                      "monotonic clock and real sleep are SAMPLED (labelled so); exactness is exhaustive over the grid, not over the 2^128 domain"],
     ),
